@@ -18,6 +18,18 @@ macro_rules! with_world {
                 type $W = crate::worlds::parser::ParserWorld;
                 $body
             }
+            "slices_u8" => {
+                type $W = crate::iterworld::IterWorld<crate::worlds::slices::SliceFam<u8>>;
+                $body
+            }
+            "slices_zst" => {
+                type $W = crate::iterworld::IterWorld<crate::worlds::slices::SliceFam<()>>;
+                $body
+            }
+            "slices_big" => {
+                type $W = crate::iterworld::IterWorld<crate::worlds::slices::SliceFam<crate::worlds::slices::Big>>;
+                $body
+            }
             other => panic!("unknown world {other}"),
         }
     };
@@ -34,6 +46,7 @@ pub fn stages_for(prop: &str, tier: Tier) -> Option<Vec<Stage>> {
     Some(match prop {
         "C13" => vec![st("parser", 1_000_000, 20_000_000)],
         "C14" => vec![st("parser", 1_000_000, 20_000_000)],
+        "C08" => vec![st("slices_u8", 1_200_000, 24_000_000), st("slices_zst", 400_000, 8_000_000), st("slices_big", 400_000, 8_000_000)],
         _ => return None,
     })
 }
